@@ -42,9 +42,10 @@ def run(tier, replay_file=None):
             plans.append((unit, ad, hs))
     expiries = 0
     ops = {}
-    for unit, ad, hs in plans:
-        for hist in hs:
-            bad = srv_replay.replay(hist, stop=2, adapter=ad, unit=unit, base_constants=True)
+    for pn, (unit, ad, hs) in enumerate(plans):
+        for hn, hist in enumerate(hs):
+            # every other history: sessions span two scenario managers whose scenario names differ
+            bad = srv_replay.replay(hist, stop=2, adapter=ad, unit=unit, base_constants=True, two=(pn + hn) % 2 == 1)
             R.add("traces_validated_against_impl")
             seen = set()
             for h in hist:
